@@ -6,6 +6,7 @@ F(k, v) == [U EXCEPT ![k] = v]
 FramesA == {F("nj", "2"), F("b", "thr"), [U EXCEPT !.b = "proc", !.nj = "3"], F("mx", "None"), [U EXCEPT !.mx = "10M", !.vb = "20"],
             F("pf", "threads"), F("rq", "sharedmem"), [U EXCEPT !.mm = "None", !.tf = "/tmp/x"], F("pf", "processes"), F("vb", "5")}
 FramesB == {F("nj", "2"), F("b", "thr"), F("mx", "None"), F("rq", "sharedmem"), [U EXCEPT !.pf = "threads", !.vb = "20"], [U EXCEPT !.b = "proc", !.mm = "c"]}
+FramesC == {F("nj", "2"), F("pf", "processes"), F("pf", "threads"), F("rq", "sharedmem"), [U EXCEPT !.b = "proc", !.nj = "3"], F("b", "thr")}
 ExplicitsA == <<U, F("nj", "4"), F("b", "thr"), F("b", "proc"), F("pf", "threads"), F("rq", "sharedmem"), F("mx", "5M"),
                 [U EXCEPT !.pf = "processes", !.vb = "50"], [U EXCEPT !.mm = "w+", !.tf = "/tmp/y"]>>
 ====
